@@ -591,3 +591,10 @@ def rod_tmin(p, bc, eps=1e-13):
     N = p['Nsum']
     k = (N * math.pi / p['L']) if bc in (1, 2) else ((2 * N + 1) * math.pi / (2 * p['L']))
     return -math.log(eps) / (p['kappa'] * k * k)
+
+
+def unit_dir(dim, a, b):
+    """deterministic unit vector from two angles"""
+    if dim == 2:
+        return np.array([math.cos(a), math.sin(a)])
+    return np.array([math.sin(b) * math.cos(a), math.sin(b) * math.sin(a), math.cos(b)])
